@@ -622,6 +622,29 @@ class Runner:
             res.unsupported.append(pr.detail)
             return
         if pr.status == 'budget':
+            # possible non-termination: replay the path's witness on the real code under a time limit
+            model = ctx.model
+            looped = False
+            if model is not None and self.inputs is not None:
+                try:
+                    cin = concretize(self.inputs, model)
+                    AC = AConc()
+                    with unpatched():
+                        try:
+                            with S._Alarm(10):
+                                with warnings.catch_warnings():
+                                    warnings.simplefilter('ignore')
+                                    self.job.body(AC, _copy_inputs(cin))
+                        except S.Budget:
+                            looped = True
+                        except Exception:
+                            pass
+                    if looped:
+                        res.violations.append(dict(site='nontermination', inputs=to_json(cin), observed='the real code did not finish within 10 s',
+                                                   info=None, exact=False, job=self.job.name, prop=self.job.prop))
+                        return
+                except Exception:
+                    pass
             res.budget += 1
             return
         A, exc = pr.value
@@ -804,9 +827,14 @@ def replay_file(path, jobs):
         return 2
     cin = from_json(rec['inputs'])
     A = AConc()
-    with warnings.catch_warnings():
-        warnings.simplefilter('ignore')
-        job.body(A, cin)
+    try:
+        with S._Alarm(30):
+            with warnings.catch_warnings():
+                warnings.simplefilter('ignore')
+                job.body(A, cin)
+    except S.Budget:
+        print("replay %s: the real code did not terminate within 30 s" % rec['job'])
+        return 1 if rec['site'] == 'nontermination' else 2
     failed = [s for s, ok, info in A.reqs if not ok]
     print("replay %s site=%s -> failing sites: %s" % (rec['job'], rec['site'], failed))
     for n, v in A.obs[:40]:
